@@ -546,7 +546,10 @@ func Run[C any](t *testing.T, s Spec[C]) {
 	// 2. committed regression cases (shrunk failures, known-finding examples): always re-run first
 	files, _ := filepath.Glob(filepath.Join(VerifRoot, "replays", PropertyID, "*.json"))
 	sort.Strings(files)
-	for _, fpath := range files {
+	for fi, fpath := range files {
+		if NShards > 1 && fi%NShards != Shard {
+			continue // the regression files are divided among the shards
+		}
 		doc, err := loadReplay(fpath)
 		if err != nil || doc.Check != s.Name {
 			continue
